@@ -163,6 +163,9 @@ MUTANTS = [
      "        if prm.shape == ():\n            return prm, self._obj", "        if prm.shape == ():\n            return prm, None"),
     ("c13-revert-haigh-order", "C13", "pylife/strength/meanstress.py",
      "        meanstress[self._R_index.left >= 1.0] = -np.inf\n", "        meanstress[starts_at_minus_inf] = -1.0\n        meanstress[self._R_index.left >= 1.0] = -1.0\n"),
+    ("c13-revert-restore-in-finally", "C13", "pylife/core/broadcaster.py",
+     "        finally:\n            self._obj.index = original_obj_index\n            parameter.index = original_parameter_index\n            _replace_unique_string_with_none_name([self._obj, parameter], uuids)\n",
+     "        finally:\n            pass\n        self._obj.index = original_obj_index\n        parameter.index = original_parameter_index\n        _replace_unique_string_with_none_name([self._obj, parameter], uuids)\n"),
     ("c13-wc-k-below-limit", "C13", "pylife/materiallaws/woehlercurve.py",
      "        below_limit = np.asarray(src < ref)", "        below_limit = np.asarray(src <= ref)"),
 ]
